@@ -44,21 +44,24 @@ int main(int argc, char** argv) {
     bool verbose = getenv("C16_VERBOSE") != 0;
     bool nofork = getenv("C16_NOFORK") != 0;
     std::string line;
+    std::map<std::string, int> abnormal;        // per class: children that crashed or hung; after 4 the class is skipped (time)
     while (std::getline(std::cin, line)) {
         if (line.empty()) continue;
         if (nofork) { run_history(line, verbose, stdout); continue; }
+        std::string cls = line.substr(0, line.find(' '));
+        if (abnormal[cls] >= 4) { printf("%s | X skipped-after-repeated-crashes\n", cls.c_str()); fflush(stdout); continue; }
         fflush(stdout);
         pid_t pid = fork();
         if (pid == 0) {
-            alarm(20);
+            alarm(8);
             FILE* devnull = freopen("/dev/null", "w", stderr); (void)devnull;
             run_history(line, verbose, stdout);
             fflush(stdout);
             _exit(0);
         }
         int st = 0; waitpid(pid, &st, 0);
-        if (WIFSIGNALED(st)) printf(" | X signal-%d\n", WTERMSIG(st));
-        else if (WEXITSTATUS(st) != 0) printf(" | X exit-%d\n", WEXITSTATUS(st));
+        if (WIFSIGNALED(st)) { printf(" | X signal-%d\n", WTERMSIG(st)); ++abnormal[cls]; }
+        else if (WEXITSTATUS(st) != 0) { printf(" | X exit-%d\n", WEXITSTATUS(st)); ++abnormal[cls]; }
         fflush(stdout);
     }
     return 0;
